@@ -38,11 +38,15 @@ Definition ingress (c : pconf) (a : attrs) : attrs :=
   if pc_as c =? g_as g then a
   else mkA (a_origin a) (a_path a) (a_nh a) (a_med a) None (a_comms a) (a_orig a) (a_cl a).
 
+(* a route that handleUpdate marked as looped on receipt (own AS in the AS_PATH, own ORIGINATOR_ID / CLUSTER_LIST entry from
+   an iBGP peer) stays in the Adj-RIB-In but is never a candidate, whatever the import policy says: softResetIn
+   replays the accepted routes only *)
 Definition imp_route (E : P) (c : pconf) (pfx : Z) (r : attrs * Z) : option rpath :=
-  match ev E (pc_addr c) pfx (ingress c (fst r)) with
-  | Some a' => Some (mkR (Some c) a' (snd r))
-  | None => None
-  end.
+  if rejected g c (fst r) then None
+  else match ev E (pc_addr c) pfx (ingress c (fst r)) with
+       | Some a' => Some (mkR (Some c) a' (snd r))
+       | None => None
+       end.
 
 (* the candidates of a destination, listed in the configured order of their sources, and the selected path *)
 Definition cands (rib : Z -> Z -> option rpath) (pfx : Z) : list rpath :=
